@@ -225,7 +225,9 @@ func ScheduleUnmanageHAProxyEndpoints(haproxyEndpointsToRemove []*HAProxyEndpoin
 	go func() {
 		clock.Sleep(staleVersionTTL)
 		// a reload in the meantime may have registered some of them again
-		unmanageHAProxyEndpointsVoided(EndpointsStillToUnmanage(haproxyEndpointsToRemove))
+		if err := UnmanageStaleHAProxyEndpoints(haproxyEndpointsToRemove); err != nil {
+			log.Error().Err(err).Msgf("Failed to unmanage HAProxy endpoints")
+		}
 	}()
 }
 
@@ -233,11 +235,10 @@ func scheduleUnmanageHAProxyGlobal() {
 	clock := contextmanager.Get().GetClock()
 	go func() {
 		clock.Sleep(staleVersionTTL)
-		if IsManageAllStillRequested() {
-			// a reload in the meantime has enabled a global plugin again
-			return
+		// a reload in the meantime may have enabled a global plugin again
+		if err := UnmanageStaleHAProxyGlobal(); err != nil {
+			log.Error().Err(err).Msg("Failed to unmanage global")
 		}
-		unmanageGlobalVoided()
 	}()
 }
 
